@@ -53,3 +53,16 @@ Proof. split; [repeat constructor; discriminate|]. vm_compute. repeat split. Qed
 Print Assumptions C16_longest_registered_symbol_with_its_type.
 Print Assumptions C16_table_is_its_registrations.
 Print Assumptions C16_further_registrations_keep_existing_types.
+
+(* State space: the objects this property's model stands for have exactly the fields the model accounts for (StateSpace.v;
+   gen/StateSpaceGen.v is regenerated from the Go sources on every run). A new field - a cache, a memo, a counter - is state
+   the model does not have, so the theorems above would no longer be about the object. *)
+From Coq Require Import String.
+Require Import StateSpaceGen StateSpace.
+Open Scope string_scope.
+Theorem C16_state_space :
+  fields_of "tokenizers/generic.SymbolNode" = fields ["parent"; "character"; "children"; "tokenType"; "valid"; "ancestry"] /\
+  fields_of "tokenizers/generic.SymbolRootNode" = fields ["embedded *SymbolNode"] /\
+  fields_of "tokenizers/generic.GenericSymbolState" = fields ["symbols"].
+Proof. vm_compute. repeat split; reflexivity. Qed.
+Print Assumptions C16_state_space.
